@@ -1,7 +1,113 @@
-/- stub: overwritten by the builder of this engine -/
-import Driver.Common
-open Lean FV FV.Drv
+/-
+Driver for the incremental-parsing scanner layer (`Model/Incremental.lean`), exe `drv_incr`.
 
-def handle (_ : Json) : Except String Json := throw "driver not implemented"
+  {"op":"scan","mode":"t"|"b","term":T,"k":k,"inc":bool,"idx":n,"pre":[u…],"rest":[u…],"w":w,"len":n,
+   "oracle":O}
+      → {"outs":[{"col":j,"inc":bool,"idx":n,"pre":[u…],"leaf":leaf|null}…]}
+     one call of scan_bytes / scan_regex / scan_bit on a state with the given flags
+  {"op":"run","mode":…,"alts":[[T…]…],"pieces":[[u…]…],"oracle":O}
+      → {"steps":[{"parses":[[leaf…]…],"can_continue":bool,"resumable":[{"want":T,"idx":n,"pre":[u…]}…],
+                   "aligned":bool}…]}
+     `new_parse`, then `consume(piece)` for every piece, on the engine for unions of terminal sequences
+
+  T := ["lit",[units]] | ["re",id] | ["bit",0|1]
+  O := {"full":[[id,[units],m]…],"part":[[id,[units],q]…]}   (absent pair = no match)
+  for "run" the tables must list every (regex of alts, infix of the input) pair that matches; the driver
+  cannot tell an absent pair from a forgotten one, so the harness always sends all infixes.
+-/
+import Driver.IRJson
+import Model.Incremental
+open Lean FV FV.Drv FV.Incr
+
+def modeOf (j : Json) : Except String Mode := do
+  match (← j.getStr?) with
+  | "t" => pure .text
+  | "b" => pure .bytes
+  | s => throw s!"bad mode {s}"
+
+def ttermOf (j : Json) : Except String TTerm := do
+  let a ← j.getArr?
+  let tag ← (a[0]?.getD Json.null).getStr?
+  let x := a[1]?.getD Json.null
+  match tag with
+  | "lit" => return .lit (← natArr x)
+  | "re" => return .regex (← x.getNat?)
+  | "bit" => return .bit ((← x.getNat?) == 1)
+  | _ => throw s!"bad terminal tag {tag}"
+
+def jTTerm : TTerm → Json
+  | .lit u => Json.arr #["lit", jNats u]
+  | .regex r => Json.arr #["re", Json.num (JsonNumber.fromNat r)]
+  | .bit b => Json.arr #["bit", Json.num (if b then 1 else 0)]
+
+def tableOf (j : Json) : Except String (List (Nat × List Nat × Nat)) := do
+  let rows ← j.getArr?
+  rows.toList.mapM (fun r => do
+    let a ← r.getArr?
+    let id ← (a[0]?.getD Json.null).getNat?
+    let us ← natArr (a[1]?.getD Json.null)
+    let m ← (a[2]?.getD Json.null).getNat?
+    pure (id, us, m))
+
+def lookup (tbl : List (Nat × List Nat × Nat)) (r : Nat) (z : List Nat) : Option Nat :=
+  match tbl.find? (fun p => p.1 == r && p.2.1 == z) with
+  | some p => some p.2.2
+  | none => none
+
+def roracleOf (j : Json) : Except String ROracle := do
+  let f ← tableOf (← j.getObjVal? "full")
+  let p ← tableOf (← j.getObjVal? "part")
+  return ⟨lookup f, lookup p⟩
+
+def jEntryOut (p : Nat × Entry LinItem) : Json :=
+  Json.mkObj [
+    ("col", Json.num (JsonNumber.fromNat p.1)),
+    ("inc", Json.bool p.2.inc),
+    ("idx", Json.num (JsonNumber.fromNat p.2.idx)),
+    ("pre", jNats p.2.pre),
+    ("leaf", match p.2.item.kids.getLast? with
+      | some l => if p.2.inc then Json.null else jLeaf l
+      | none => Json.null)]
+
+def alignedB (s : PState LinItem) : Bool :=
+  s.done.zipIdx.all (fun (c, k) =>
+    k % 8 == 0 || c.all (fun e => match linEngine.want e.item with
+      | some (.lit _) => false | some (.regex _) => false | _ => true))
+
+def handle (j : Json) : Except String Json := do
+  let op ← j.getObjValAs? String "op"
+  match op with
+  | "scan" =>
+    let md ← modeOf (← j.getObjVal? "mode")
+    let t ← ttermOf (← j.getObjVal? "term")
+    let R ← roracleOf (← j.getObjVal? "oracle")
+    let k ← (← j.getObjVal? "k").getNat?
+    let inc ← (← j.getObjVal? "inc").getBool?
+    let idx ← (← j.getObjVal? "idx").getNat?
+    let pre ← natArr (← j.getObjVal? "pre")
+    let rest ← natArr (← j.getObjVal? "rest")
+    let w ← (← j.getObjVal? "w").getNat?
+    let len ← (← j.getObjVal? "len").getNat?
+    let e : Entry LinItem := ⟨⟨[t], []⟩, inc, idx, pre⟩
+    let outs := scanEntry linEngine R md k e rest w len
+    return Json.mkObj [("outs", Json.arr (outs.map jEntryOut).toArray)]
+  | "run" =>
+    let md ← modeOf (← j.getObjVal? "mode")
+    let R ← roracleOf (← j.getObjVal? "oracle")
+    let alts ← (← (← j.getObjVal? "alts").getArr?).toList.mapM (fun a => do
+      (← a.getArr?).toList.mapM ttermOf)
+    let pieces ← (← (← j.getObjVal? "pieces").getArr?).toList.mapM natArr
+    let step (acc : PState LinItem × List Json) (piece : List Nat) : PState LinItem × List Json :=
+      let s := feed linEngine R md acc.1 piece
+      let parses := (completeParses linEngine s).map (fun t => Json.arr ((t.leaves.map jLeaf).toArray))
+      let res := (resumable s).map (fun e => Json.mkObj [
+        ("want", match linEngine.want e.item with | some t => jTTerm t | none => Json.null),
+        ("idx", Json.num (JsonNumber.fromNat e.idx)), ("pre", jNats e.pre)])
+      (s, acc.2 ++ [Json.mkObj [("parses", Json.arr parses.toArray),
+        ("can_continue", Json.bool (canContinue linEngine s)),
+        ("resumable", Json.arr res.toArray), ("aligned", Json.bool (alignedB s))]])
+    let (_, steps) := pieces.foldl step (linStart alts, [])
+    return Json.mkObj [("steps", Json.arr steps.toArray)]
+  | _ => throw s!"unknown op {op}"
 
 def main : IO Unit := run handle
